@@ -460,7 +460,9 @@ def Engine.closeCurrent (e : Engine) : Engine × Res :=
           if passesPolicy o.packet e.cfg.policy then ({ e with userQ := id :: e.userQ }, .ok)
           else e.completeFailure id "OfflineQueuePolicyFailed"
         | .publish p =>
-          if p.dup then ({ e with resubQ := id :: e.resubQ }, .ok)
+          if p.dup then
+            -- still in the pending-publish table (fully written on this connection): re-queued by that pass
+            (if e.pendingPub.lookup p.packetId == some id then (e, .ok) else ({ e with resubQ := id :: e.resubQ }, .ok))
           else if p.qos = 2 && o.pubrel.isSome then ({ e with highQ := id :: e.highQ }, .ok)
           else if passesPolicy o.packet e.cfg.policy then ({ e with userQ := id :: e.userQ }, .ok)
           else e.completeFailure id "OfflineQueuePolicyFailed"
